@@ -616,9 +616,61 @@ def calc_unit():
     return unit
 
 
+# ----------------------------------------------------------------------------------------------------------
+# geostructures/_geometry.py :: coordinate_vector_cross_product, convex_hull — Andrew's monotone chain   (C10)
+#
+# a coordinate is the exact pair `GV.Pt` (floats as exact rationals, §3).  Translated from the text: the cross product,
+# the `len(...) <= 1` shortcut, both `for` loops (structural recursions over the sorted / reversed list whose state is the
+# stack), the `while len(st) >= 2 and cross(st[-2], st[-1], coord) <= 0: st.pop()` inside them (a fuelled recursion that
+# returns the stack; fuel = the stack's length, running out while the test holds is an error), `append`, `xs[:-1] + ys`.
+# A Python list is the Lean list in the same order (the model keeps its stacks top-first: the proofs bridge the two).
+# `xs[-k]` and `pop()` raise IndexError on a short list, so the instance is in `Except`; the equality with the model
+# says no exception is ever raised.
+# *Not* translated (declared intrinsic): `sorted(set(xs), key=lambda x: (x.longitude, x.latitude))` is read as the model's
+# `GV.Hull.sortedSet` (duplicate removal + stable merge sort on the key; `sorted_set_canonical` in Props/C10 shows the
+# result does not depend on the set's iteration order); any other `sorted(...)` call is rejected.
+
+def hull_unit():
+    import ast as _ast
+    src = py2lean.Source(_repo('_geometry.py'))
+    insts = [
+        Inst('coordinate_vector_cross_product', 'cross', [('o', 'Pt'), ('a', 'Pt'), ('b', 'Pt')], 'R'),
+        Inst('convex_hull', 'convexHull', [('coordinates', 'List Pt')], 'Except List Pt'),
+    ]
+
+    def sorted_hook(tr, e):
+        def is_key(lam):
+            if not (isinstance(lam, _ast.Lambda) and len(lam.args.args) == 1 and not lam.args.defaults and not lam.args.vararg
+                    and not lam.args.kwarg and not lam.args.kwonlyargs and isinstance(lam.body, _ast.Tuple) and len(lam.body.elts) == 2):
+                return False
+            x = lam.args.args[0].arg
+            return [(_ast.unparse(c.value), c.attr) if isinstance(c, _ast.Attribute) else None for c in lam.body.elts] == \
+                [(x, 'longitude'), (x, 'latitude')]
+        ok = (len(e.args) == 1 and len(e.keywords) == 1 and e.keywords[0].arg == 'key' and is_key(e.keywords[0].value)
+              and isinstance(e.args[0], _ast.Call) and isinstance(e.args[0].func, _ast.Name) and e.args[0].func.id == 'set'
+              and len(e.args[0].args) == 1 and not e.args[0].keywords)
+        xs = tr.expr(e.args[0].args[0]) if ok else None
+        if not ok or xs.typ != 'List Pt':
+            raise Unsupported(f'`{_ast.unparse(e)[:90]}`: only `sorted(set(<coordinates>), key=lambda x: (x.longitude, x.latitude))` '
+                              'is read as the model\'s sortedSet')
+        return Val(f'(GV.Hull.sortedSet {xs.text})', 'List Pt')
+
+    def loop_fuel(qual, state):
+        # each iteration of the inner loop pops one entry: the stack's length bounds the number of iterations
+        return ' + '.join('({' + n + '}).length' for n in state)
+
+    return Unit('SrcHull', src, 'GV.Src.Hull', ['GeoVerif.Model.Hull', 'GeoVerif.Model.PyList'], insts, {},
+                attr_types={('Pt', 'longitude'): ('{}.1', 'R'), ('Pt', 'latitude'): ('{}.2', 'R')},
+                hooks={'isinstance': lambda typ: None, 'sorted': sorted_hook, 'loop_fuel': loop_fuel,
+                       'keywords': lambda tr, e: getattr(e.func, 'id', None) == 'sorted',
+                       'ann_type': lambda ann: {'List[Coordinate]': 'List Pt', 'list[Coordinate]': 'List Pt'}.get(ann),
+                       'local_type': lambda qual, name: 'List Pt' if qual == 'convex_hull' else None})
+
+
 UNITS = {'SrcTime': time_unit, 'SrcBase': base_unit, 'SrcMulti': multi_unit, 'SrcColl': coll_unit, 'SrcPip': pip_unit,
          'SrcMember': member_unit, 'SrcTrack': track_unit, 'SrcRelate': relate_unit, 'SrcCoord': coord_unit,
          'SrcCurved': curved_unit, 'SrcCalc': calc_unit}
+UNITS['SrcHull'] = hull_unit
 
 
 def render(name):
